@@ -623,6 +623,16 @@ def run(chk):
         if st == "ok" and not finite(V):
             chk.finding(EP_HALS, inputs_json(p, V0=V0, epsilon=eps, n_iter_max=iters), "hals_nnls returned non-finite entries on a well-conditioned problem",
                         "C13_hals_returns", observed=V)
+        # predicate (documented contract of nonzero_rows=True, a TEST -- no theorem): an updated row is not left identically zero when the
+        # matrix has a positive entry at that moment (the safety value is eps(dtype) * max(V)).  Decidable from outside for a single pass
+        # from a warm start: when row k is updated, the rows below it still hold their start values
+        if st == "ok" and finite(V) and nz and iters == 1 and V0 is not None:
+            zr = [k for k in range(r - 1) if G[k, k] != 0 and float(np.max(V0[k + 1:, :])) > 0 and not np.any(V[k, :] != 0)]
+            if zr:
+                chk.finding(EP_HALS, inputs_json(p, V0=V0, epsilon=eps, n_iter_max=iters, nonzero_rows=True),
+                            f"nonzero_rows=True but row {zr[0]} of the result is identically zero although the matrix had positive entries when it was updated",
+                            "C13_hals_nonzero_rows", observed=V)
+            chk.hist("hals_nonzero_rows", "single pass from a warm start: checked")
         # predicate (theorem (i)): every updated row is >= eps after at least one pass
         if st == "ok" and finite(V):
             upd = [k for k in range(r) if G[k, k] != 0]
@@ -827,17 +837,25 @@ def run(chk):
                 x0 = None
         as_inputs.append((p, x0, rng.choice([1, 2, 100, 100])))
     for p, x0, iters in as_inputs:
+        # the tol argument: the default, and two large values (the termination test `max gradient on the active set <= tol` then fires
+        # earlier); not dyadic, so that no gradient of these dyadic problems sits on the threshold
+        as_tol = 10e-8 if rng.random() < 0.6 else rng.choice([0.3712, 1.9])
         b, G, r = p["B"][:, 0], p["G"], p["r"]
         try:
-            st, x = impl_call(chk, lambda: active_set_nnls(b.copy(), G.copy(), x=None if x0 is None else x0.copy(), n_iter_max=iters))
+            # a quarter of the warm starts are passed as an (r, 1) matrix: the code vectorises its start (tl.base.tensor_to_vec)
+            x0_arg = None if x0 is None else (x0.reshape(-1, 1).copy() if rng.random() < 0.25 else x0.copy())
+            st, x = impl_call(chk, lambda: active_set_nnls(b.copy(), G.copy(), x=x0_arg, n_iter_max=iters, tol=as_tol))
         except Skip:
             continue
+        if x0_arg is not None and x0_arg.ndim == 2:
+            chk.hist("active_set_model_vs_impl", "warm start given as a matrix")
         impl = f"(Some {vec_lit(x)})" if st == "ok" and finite(x) else "None"
         x0l = "None" if x0 is None else f"(Some {vec_lit(x0)})"
-        add_case(lambda cid: f"(CAset {cid}%nat {vec_lit(b)} {mat_lit(G)} {x0l} {iters}%nat {C.q(10e-8)} {impl})",
+        add_case(lambda cid: f"(CAset {cid}%nat {vec_lit(b)} {mat_lit(G)} {x0l} {iters}%nat {C.q(as_tol)} {impl})",
                  ("aset", r, x0 is not None, iters, st, p["style"]))
         chk.count(key=("aset", r, x0 is not None, iters, p["style"], p["signed"]), nontrivial=r > 1)
         chk.hist("active_set_model_vs_impl", ("warm" if x0 is not None else "cold") + f"/n_iter_max={iters}")
+        chk.hist("active_set_tol", "default" if as_tol == 10e-8 else str(as_tol))
 
     # ---------------- E. ADMM with n_const=None
     for t in range(T["nadmm"]):
@@ -881,7 +899,8 @@ def run(chk):
                        "corpus of the former defects first; solvers run to convergence from cold and warm (dense / sparse / zero) starts -> predicates + exact certificates (CConv); "
                        "single calls with the default n_iter_max / tol / lr -> approximately optimal (looser tolerance); "
                        "1-3 HALS passes and 1-4 FISTA iterations (given and default step) from dense / sparse / zero / infeasible / cold starts with epsilon, nonzero_rows, zero diagonals -> model vs implementation; "
-                       "the cold start of hals_nnls (n_iter_max=0) vs the model's hals_init; active set cold / warm vs the exact model; ADMM(n_const=None) vs the model with exact elimination. "
+                       "the cold start of hals_nnls (n_iter_max=0) vs the model's hals_init; the entry point fista with sparsity_coef / ridge_coef / lr / x given or None vs the model's fista_call; "
+                       "active set cold / warm (a quarter of the warm starts given as an (r,1) matrix) vs the exact model; ADMM(n_const=None) vs the model with exact elimination. "
                        "non-trivial = more than one unknown*rhs; distinct key = (solver, size, design sign, optimum style, start, coefficients, epsilon)")
     for b_ in broken:
         chk.broken.append({"what": "correspondence corr:C13 shard not evaluated", "detail": b_})
@@ -891,6 +910,9 @@ def run(chk):
                        "float64 arithmetic of the implementation is within 1e-9 (relative) of exact arithmetic on 1-4 iterations of these well-conditioned problems",
                        "'run to convergence' is a limit statement: proved are monotone descent + fixed point <=> KKT => optimal; that the returned point is an approximate fixed point is measured (CConv)"]
     chk.trusted = ["scipy.optimize.nnls as independent reference (objective value only)",
+                   "static tie (C13_tie.py): the translator from the Python ast to Gallina terms is trusted to render the arithmetic faithfully (it knows only +, -, *, /, clip, where, dot, "
+                   "transpose, sum, abs, copy, solve and fails closed on anything else); what it does not translate (rec_error, nonzero_rows, callback / exact, list branch, default step, "
+                   "active_set_nnls, admm's x_split) is tied by the differential correspondence only",
                    "the sqrt-defined FISTA momentum sequence and the leading singular value (numpy 2-norm) enter the model as recorded data",
                    "stopping decisions: when every decision e < t of the model's run is clear-cut (|e - t| > 1e-6 (|e| + |t|)) the implementation must return the model's result; only borderline decisions (incl. e = t = 0) fall back to accepting any prefix iterate"]
     return chk.finish(CLASSIFIERS)
@@ -1007,7 +1029,14 @@ def replay(payload):
             msg = f"raised {V}" if st != "ok" else check_point(p, V, eps, "fista")
     else:
         kw = dict(sparsity_coefficient=l1 or None, ridge_coefficient=l2 or None)
-        if pred in ("C13_hals_iterates_ge_eps", "C13_hals_returns") and not default and "n_iter_max" in inp:
+        if pred == "C13_hals_nonzero_rows":
+            V0 = arr(inp.get("V0"))
+            st, V = C.call_impl(lambda: quiet(hals_nnls, B.copy(), G.copy(), V=V0.copy(), n_iter_max=1, tol=0, epsilon=eps, nonzero_rows=True, **kw))
+            msg = f"failed {V}" if st != "ok" else None
+            if st == "ok":
+                zr = [k for k in range(r - 1) if G[k, k] != 0 and float(np.max(V0[k + 1:, :])) > 0 and not np.any(V[k, :] != 0)]
+                msg = f"row {zr[0]} identically zero with nonzero_rows=True" if zr else None
+        elif pred in ("C13_hals_iterates_ge_eps", "C13_hals_returns") and not default and "n_iter_max" in inp:
             st, V = C.call_impl(lambda: quiet(hals_nnls, B.copy(), G.copy(), V=arr(inp.get("V0")), n_iter_max=int(inp.get("n_iter_max", 1)), tol=0, epsilon=eps, **kw))
             msg = f"failed {V}" if st != "ok" else (f"non-finite or below epsilon {np.min(V)}" if not finite(V) or (int(inp.get("n_iter_max", 1)) > 0 and np.min(V) < eps) else None)
         elif default:
